@@ -721,6 +721,9 @@ class Sample:
                 muts[pos, op].append(
                     (mean(mq for mq, _ in items), mean(q for _, q in items))
                 )
+                # the fragment shows the multi-substitution allele at this site
+                if pos in self.phaseable:
+                    phase[pos] = op
 
         if self._indel_sites_eqs:  # long-read hack
             for pos, op in self._indel_sites:
